@@ -4,7 +4,7 @@ import hashlib
 import z3
 from .models import *
 from .values import *
-from .sstr import SStr, Sym
+from .sstr import SStr
 from .interp import Inconclusive
 from .models_str import render_arguments
 
@@ -43,29 +43,30 @@ def m_anyhow_fmt(ctx, cty, a):
 # ------------------------------------------------------------------ sha2 / hex: digest_bytes is modelled as a whole
 def sym_digest(ctx, content):
     """SHA-256 hex digest of a (possibly symbolic) byte string. Concrete input: real SHA-256.
-    Symbolic input: a fresh 64-character lower-case hex string, constrained to behave injectively
-    with respect to every other content hashed on this path (collision freedom assumption)."""
+    Symbolic input: fresh lower-case hex characters, constrained to behave injectively with respect to
+    every other content hashed on this path (collision freedom, also for the 7-character prefix that
+    revisions use as their tail)."""
     if content.is_concrete():
         return SStr.lit(hashlib.sha256(content.concrete().encode("latin-1")).hexdigest())
     for c, d in ctx.hashes:
         if c.same(content):
             return d
-    h = ctx.fresh("sha", "str")
-    hexre = z3.Union(z3.Range("0", "9"), z3.Range("a", "f"))
     n = int(ctx.opts.get("digest_len", 64))
-    ctx.add(z3.InRe(h, z3.Loop(hexre, n, n)))
-    d = SStr.sym(h, n)
-    ctx.mark_safe(d.parts[0])
+    d = ctx.fresh_string("hex", n, "sha")
+    pre = d.slice(0, 7)
     for c, d2 in ctx.hashes:
         e = content.eq(c)
+        same_pre = pre.eq(d2.slice(0, 7))
+        same_all = d.eq(d2)
         if e is True:
-            ctx.add(d.to_z3() == d2.to_z3())
+            ctx.add(same_all)
         elif e is False:
-            ctx.add(d.to_z3() != d2.to_z3())
+            ctx.add(z3.Not(same_pre) if same_pre is not False else True)
         else:
-            ctx.add(e == (d.to_z3() == d2.to_z3()))
+            ctx.add(z3.If(e, same_all, z3.Not(same_pre)))
     ctx.hashes.append((content, d))
-    ctx.assumptions.add("SHA-256 of symbolic content is an uninterpreted injective function (no collisions) yielding %d lower-case hex chars" % n)
+    ctx.assumptions.add("SHA-256 of symbolic content is modelled as an injective function yielding %d lower-case hex chars; "
+                        "distinct contents also differ in their first 7 hex chars (no revision-tail collisions)" % n)
     return d
 
 
@@ -242,29 +243,19 @@ def m_sym_atom(ctx, cty, a):
     return jnum(v)
 
 
-CLASSES = {
-    0: ("hex", z3.Union(z3.Range("0", "9"), z3.Range("a", "f"))),
-    1: ("lower", z3.Range("a", "z")),
-    2: ("word", z3.Union(z3.Range("0", "9"), z3.Range("a", "z"), z3.Range("A", "Z"), z3.Re("_"))),
-    3: ("digit", z3.Range("0", "9")),
-    4: ("printable", z3.Range(" ", "~")),
-    5: ("byte", z3.Range(chr(0), chr(255))),
-    6: ("alnum", z3.Union(z3.Range("0", "9"), z3.Range("a", "z"))),
-    7: ("jsonish", z3.Union(z3.Re("{"), z3.Re("}"), z3.Re('"'), z3.Re("\\"), z3.Re("["), z3.Re("]"), z3.Re(","), z3.Re(":"), z3.Re("a"), z3.Re("é".encode("utf-8").decode("latin-1")[0]), z3.Re("é".encode("utf-8").decode("latin-1")[1]))),
-}
+CLASSES = {0: "hex", 1: "lower", 2: "word", 3: "digit", 4: "printable", 5: "byte", 6: "alnum", 7: "jsonish"}
 
 
 @model("verif_harness::sym::string", "sym::string")
 def m_sym_string(ctx, cty, a):
-    """sym::string(class, min_len, max_len) -> String"""
-    cls, lo, hi = a[0], a[1], a[2]
-    name, rx = CLASSES[cls]
-    v = ctx.fresh("s_" + name, "str")
-    ctx.add(z3.InRe(v, z3.Loop(rx, lo, hi)))
-    n = lo if lo == hi else None
-    s = SStr.sym(v, n)
-    if name in ("hex", "lower", "word", "digit", "alnum"):
-        ctx.mark_safe(s.parts[0])
+    """sym::string(class, min_len, max_len) -> String; the length is chosen by forking"""
+    cls, lo, hi = CLASSES[a[0]], a[1], a[2]
+    n = lo
+    if hi > lo:
+        ln = ctx.fresh("len")
+        ctx.add(z3.And(ln >= lo, ln <= hi))
+        n = ctx.concretize(ln, "string length")
+    s = ctx.fresh_string(cls, n, "s_" + cls)
     _log_input(ctx, "str", s)
     return StringObj(s)
 
